@@ -1,9 +1,11 @@
 """C13 — iter(), state_dict() and load_state_dict() compose as documented in any order (nodes Loader part; the
 StatefulDataLoader front-end is added by the SDL harness)."""
 import nodes_impl as ni
+import sdl_api as sa
+import sdl_impl as si
 
 PID = "C13"
-IMPORTS = "NodeModel NodeObs"
+IMPORTS = "NodeModel NodeObs SdlApiModel"
 FUNCS = ["torchdata/nodes/loader.py:Loader", "torchdata/nodes/loader.py:LoaderIterator", "torchdata/nodes/adapters.py:SamplerWrapper",
          "torchdata/stateful_dataloader/stateful_dataloader.py:StatefulDataLoader.__iter__",
          "torchdata/stateful_dataloader/stateful_dataloader.py:StatefulDataLoader.state_dict",
@@ -14,8 +16,8 @@ RULE = ("random API call sequences (length <= 14) over {iter, next x j, exhaust,
         ">= 2 iter; distinct = distinct (pipeline, op sequence)")
 TRUSTED = ["the list-based reference in this file is the documented behaviour (README/docstrings) as read by the verifier"]
 ASSUMPTIONS = []
-NPROC = 14
-CASE_TIMEOUT = 120
+NPROC = 12
+CASE_TIMEOUT = 240
 
 
 def gen_ops(rng, L):
@@ -59,9 +61,60 @@ def gen_template(rng, L):
     return [list(o) for o in t]
 
 
+def gen_sdl_ops(rng, L):
+    N = lambda k: [["next"]] * k
+    a, b = rng.randint(0, min(L, 3)), rng.randint(1, 3)
+    if rng.random() < 0.5:
+        t = rng.choice([
+            [["state"], ["iter"]] + N(a) + [["iter"]] + N(L + 1),                                   # state_dict() first, an abandoned epoch, a new one
+            [["iter"]] + N(a) + [["state"], ["fresh"], ["state"], ["load", 0], ["iter"]] + N(b),
+            [["iter"]] + N(a) + [["state"], ["load", 0], ["state"], ["iter"]] + N(b),
+            [["iter"]] + N(L + 1) + [["state"], ["fresh"], ["load", 0], ["iter"]] + N(b) + [["iter"]] + N(b),
+            [["iter"]] + N(L) + [["state"], ["fresh"], ["load", 0], ["iter"]] + N(b),
+            [["iter"]] + N(a) + [["state"], ["iter"]] + N(b) + [["load", 0], ["next"], ["iter"]] + N(b),
+            [["iter"]] + N(a) + [["state"], ["load_empty"], ["iter"]] + N(b),
+            [["iter"]] + N(a) + [["iter"]] + N(b) + [["iter"]] + N(L + 1) + [["iter"]] + N(b),
+            [["state"], ["state"], ["iter"]] + N(a) + [["state"], ["fresh"], ["load", 2], ["iter"]] + N(b) + [["iter"]] + N(1),
+        ])
+        return [list(o) for o in t]
+    ops, have_it, nsaved = [], False, 0
+    for _ in range(rng.randint(2, 8)):
+        r = rng.random()
+        if r < 0.25 or (not have_it and r < 0.5):
+            ops.append(["iter"])
+            have_it = True
+        elif r < 0.5 and have_it:
+            ops += N(rng.randint(1, 3))
+        elif r < 0.6 and have_it:
+            ops += N(L + 1)
+        elif r < 0.8:
+            ops.append(["state"])
+            nsaved += 1
+        elif r < 0.85:
+            ops.append(["fresh"])
+            have_it = False
+        elif r < 0.9:
+            ops.append(["load_empty"])
+        elif nsaved:
+            ops.append(["load", rng.randrange(nsaved)])
+    return ops
+
+
 def gen_cases(rng, tier, drift):
     n = 600 if tier == "quick" and not drift else 8000
+    nsdl = 90 if tier == "quick" and not drift else 1500
     cases = []
+    for _ in range(nsdl):
+        cfg = si.gen_cfg(rng, maxW=2)
+        cfg["W"] = rng.choice([0, 2])
+        if cfg["kind"] == "iter":
+            cfg["sizes"] = [rng.randint(0, 4) for _ in range(max(1, cfg["W"]))]
+            cfg["stateful"], cfg["rewind"], cfg["iterstate"] = False, False, True     # iterator-level state: every __iter__ starts at item 0
+        else:
+            cfg["n"] = rng.randint(0, 7)
+        cfg["persistent"] = cfg["W"] > 0 and rng.random() < 0.4
+        L = len(si.batches_ref(cfg))
+        cases.append(dict(kind="sdl", cfg=cfg, ops=gen_sdl_ops(rng, L)))
     for _ in range(n):
         p = ni.gen_well_typed_pipe(rng, max_depth=rng.choice([0, 1, 2, 3]), threads=rng.random() < 0.3)
         L = max(len(ni.ref_sem(p, e)) for e in range(4))
@@ -75,7 +128,8 @@ def distribution(cases):
     for c in cases:
         for o in c["ops"]:
             d["ops"][o[0]] = d["ops"].get(o[0], 0) + 1
-        d["sampler"] += "sampler" in str(c["pipe"])
+        d["sampler"] += "sampler" in str(c.get("pipe"))
+        d["sdl"] = d.get("sdl", 0) + (c.get("kind") == "sdl")
     return d
 
 
@@ -120,7 +174,43 @@ class RefLoader:
         self.for_sd = False
 
 
+def run_sdl(c):
+    cfg, ops = c["cfg"], c["ops"]
+    try:
+        obs = sa.run_api(cfg, ops)
+    finally:
+        si.kill_children()
+    L = len(si.batches_ref(cfg))
+    ref = sa.RefSDL(L, bool(cfg.get("persistent")) and cfg["W"] > 0)
+    rsaved, fails = [], []
+    for i, (o, got) in enumerate(zip(ops, obs)):
+        if isinstance(got, str) and got.startswith("err"):
+            fails.append(f"op {i} {o}: {got}")
+            break
+        if o[0] == "iter":
+            ref.iter()
+        elif o[0] == "next":
+            want = ref.next()
+            if got != want:
+                fails.append(f"op {i} next: got {got}, reference {want}")
+        elif o[0] == "state":
+            want = ref.state()
+            rsaved.append(want)
+            if (got[1], got[2]) != want:
+                fails.append(f"op {i} state_dict: position {got[1:]}, reference {want}")
+        elif o[0] == "load":
+            ref.load(rsaved[o[1]])
+        elif o[0] == "load_empty":
+            ref.load(None)
+        elif o[0] == "fresh":
+            ref = sa.RefSDL(L, bool(cfg.get("persistent")) and cfg["W"] > 0)
+    kinds = [o[0] for o in ops]
+    return dict(obs=obs, oracle="; ".join(fails[:2]) or None, nontrivial="load" in kinds and kinds.count("iter") >= 2, key=[cfg, ops])
+
+
 def run_impl(c):
+    if c.get("kind") == "sdl":
+        return run_sdl(c)
     p, restart, ops = c["pipe"], c["restart"], c["ops"]
     obs, saved, pickled, _ = ni.run_history(p, restart, ops)
     ref = RefLoader(lambda e: ni.ref_sem(p, e), restart)
@@ -151,6 +241,11 @@ def run_impl(c):
 
 
 def model_term(c, r):
+    if c.get("kind") == "sdl":
+        cfg = c["cfg"]
+        L = len(si.batches_ref(cfg))
+        pers = "true" if cfg.get("persistent") and cfg["W"] > 0 else "false"
+        return f"fe_obs {L} {pers} {sa.coq_aops(c['ops'])}"
     return f"loader_obs {ni.coq_pipe(c['pipe'])} {'true' if c['restart'] else 'false'} {ni.coq_ops(c['ops'])}"
 
 
@@ -172,7 +267,7 @@ def idle_epoch(ops):
 def known_match(f, case, detail):
     # D15: only for pipelines with an epoch-dependent sampler, only when some epoch saw no user request, and only when the
     # library itself pulls: read-ahead threads, a restore that pulls (Unbatcher/Prefetcher/ParallelMapper), or the restart look-ahead
-    if f["id"] != "D15" or case is None:
+    if f["id"] != "D15" or case is None or case.get("kind") == "sdl":
         return False
     p = str(case["pipe"])
     loads = any(o[0] == "load" for o in case["ops"])
